@@ -7,6 +7,7 @@ package PKGNAME
 import (
 	"fmt"
 	"os"
+	"path/filepath"
 	"time"
 )
 
@@ -135,10 +136,27 @@ func verifSleep() { time.Sleep(20 * time.Millisecond) }
 // symSetFile / symGetFile: a file the code under test reads or writes. Under symgo a virtual
 // file system; natively real files.
 func symSetFile(path, content string) {
+	os.MkdirAll(filepath.Dir(path), 0o755)
 	if err := os.WriteFile(path, []byte(content), 0o644); err != nil {
 		panic("verif: cannot write " + path + ": " + err.Error())
 	}
 }
+
+// symRemoveFile removes a file or link if it exists.
+func symRemoveFile(path string) { os.Remove(path) }
+
+// symSetSymlink makes path a symbolic link to target (a file-level link).
+func symSetSymlink(path, target string) {
+	os.MkdirAll(filepath.Dir(path), 0o755)
+	os.Remove(path)
+	if err := os.Symlink(target, path); err != nil {
+		panic("verif: cannot link " + path + ": " + err.Error())
+	}
+}
+
+// symAdvanceClock lets ns nanoseconds pass. Under symgo the virtual clock behind time.Now, time.Since
+// and file modification times advances by the (possibly symbolic) amount; natively it sleeps.
+func symAdvanceClock(ns int64) { time.Sleep(time.Duration(ns)) }
 
 func symGetFile(path string) (string, bool) {
 	b, err := os.ReadFile(path)
